@@ -328,3 +328,13 @@ package ast
 //@   ensures  result.Name == name && result.Type == fieldType
 //@   loop 0:
 //@     invariant trail: base(field.PassesTrail) == 0 || fresh(field.PassesTrail)
+//
+// Reference resolution is a read-only, deterministic function of the schemas.
+//@ func Schemas.ResolveToType
+//@   property C04 C16
+//@   pure
+//@   modifies nothing
+//
+//@ func (*BuilderGenerator).structObjectToBuilder
+//@   property C04 C16
+//@   requires resolved: call("ast.Schemas.ResolveToType", schemas, object.Type).Kind == KindStruct
